@@ -73,7 +73,16 @@ class PyFileWriter(AbstractWriter):
 
         try:
             fd, tfile = tempfile.mkstemp(dir=self._path)
-            os.write(fd, encode(data))
+            data = encode(data)
+
+            # os.write may store only part of the buffer
+            while data:
+                written = os.write(fd, data)
+                if not written:
+                    raise IOError('short write into %s' % tfile)
+
+                data = data[written:]
+
             os.close(fd)
             os.rename(tfile, pyfile)
 
